@@ -1157,4 +1157,247 @@ Section WithMatch.
     apply (single_merge_result st d r p _ Hs); try assumption; [|reflexivity].
     rewrite Hm, <- Hst2. cbn [set_merge ps_merge]. rewrite Hm1. reflexivity.
   Qed.
+
+  (* -------------------------------------------------------------- *)
+  (* C14: $elemMatch *)
+
+  Lemma first_match_found a q pa item pb :
+    a = pa ++ item :: pb ->
+    Forall (fun x => elem_matches matchf x q = Ok false) pa ->
+    elem_matches matchf item q = Ok true ->
+    first_match matchf a q = Ok (Some item).
+  Proof.
+    intros Ha Hpa Hi. subst a. induction Hpa as [|x pa Hx Hpa IH]; cbn [app first_match].
+    - rewrite Hi. reflexivity.
+    - rewrite Hx. cbn [bind]. exact IH.
+  Qed.
+
+  Lemma first_match_none a q :
+    Forall (fun x => elem_matches matchf x q = Ok false) a -> first_match matchf a q = Ok None.
+  Proof.
+    induction 1 as [|x a Hx Ha IH]; cbn [first_match]; [reflexivity|]. rewrite Hx. exact IH.
+  Qed.
+
+  Lemma elem_entry_step st1 d p q st2 :
+    process_expression pctx st1 d "" (p, VDoc [("$elemMatch", VDoc q)]) true = Ok st2 ->
+    project_elem_match matchf st1 d "$elemMatch" p (VDoc q) = Ok st2.
+  Proof.
+    intro H. destruct (is_operator_key p) eqn:Hk; [rewrite pe_root_operator in H by exact Hk; discriminate|].
+    rewrite pe_single_op in H by (exact Hk || reflexivity). exact H.
+  Qed.
+
+  (* the first element for which the condition holds *)
+  Theorem elem_match_spec_found d pre post p q a pa item pb r :
+    forallb plain_entry pre = true -> forallb plain_entry post = true ->
+    kpath_str p = true -> root p <> "_id" ->
+    Get d p = VArr a -> a = pa ++ item :: pb ->
+    Forall (fun x => elem_matches matchf x q = Ok false) pa ->
+    elem_matches matchf item q = Ok true ->
+    Proj d (pre ++ (p, VDoc [("$elemMatch", VDoc q)]) :: post) = Ok r ->
+    Get r p = VArr [item].
+  Proof.
+    intros Hpre Hpost Hk Hroot Ha Hsplit Hpa Hi H. unfold project_with, project_process in H.
+    apply bind_ok in H. destruct H as [st [Hp Hs]].
+    destruct (one_operator_merge _ _ _ _ _ _ Hpre Hpost Hp) as [st1 [st2 [Hm1 [_ [He [Hm _]]]]]].
+    apply elem_entry_step in He. unfold project_elem_match in He. rewrite Ha in He.
+    rewrite (first_match_found a q pa item pb Hsplit Hpa Hi) in He. cbn [bind] in He.
+    inversion He as [Hst2].
+    apply (single_merge_result st d r p _ Hs); try assumption; [|reflexivity].
+    rewrite Hm, <- Hst2. cbn [set_merge add_skip add_include ps_merge]. rewrite Hm1. reflexivity.
+  Qed.
+
+  Lemma copy_included_unrelated d skip paths r r1 q :
+    all_kpaths paths -> copy_included d skip paths r = Ok r1 ->
+    (forall p', In p' paths -> str_mem p' skip = false -> unrelated (split_path p') q) ->
+    dget (VDoc r1) q = dget (VDoc r) q.
+  Proof.
+    revert r. induction paths as [|p0 t IH]; intros r Hk H Hu.
+    - cbn [copy_included] in H. inversion H. reflexivity.
+    - assert (Hkt : all_kpaths t) by (intros p Hp; apply Hk; right; exact Hp).
+      assert (Hut : forall p', In p' t -> str_mem p' skip = false -> unrelated (split_path p') q)
+        by (intros p' Hp'; apply Hu; right; exact Hp').
+      destruct (copy_included_step _ _ _ _ _ _ H) as [[_ H']|[old [r' [Hs [Hm [HP H']]]]]].
+      + exact (IH r Hkt H' Hut).
+      + rewrite (IH r' Hkt H' Hut).
+        pose proof (Put_kpath_ok _ _ _ _ _ (Hk p0 (or_introl eq_refl)) Hm HP) as Hd.
+        exact (dget_dset_unrelated _ _ _ _ _ Hd (Hu p0 (or_introl eq_refl) Hs)).
+  Qed.
+
+  Lemma included_keys_in pr k : In k (included_keys pr) -> exists v, In (k, v) pr.
+  Proof.
+    unfold included_keys. intro H. apply in_map_iff in H. destruct H as [[k' v] [E Hf]].
+    apply filter_In in Hf. cbn [fst] in E. subst k'. exists v. tauto.
+  Qed.
+
+  (* absent when no element matches (p unrelated to every other path of the
+     projection) *)
+  Theorem elem_match_spec_none d pre post p q a r :
+    forallb plain_entry pre = true -> forallb plain_entry post = true ->
+    all_kpaths (map fst (pre ++ post)) -> kpath_str p = true -> root p <> "_id" ->
+    (forall e, In e (pre ++ post) -> unrelated (split_path (fst e)) (split_path p)) ->
+    Get d p = VArr a ->
+    Forall (fun x => elem_matches matchf x q = Ok false) a ->
+    Proj d (pre ++ (p, VDoc [("$elemMatch", VDoc q)]) :: post) = Ok r ->
+    Get r p = VMissing.
+  Proof.
+    intros Hpre Hpost Hkall Hk Hroot Hu Ha Hnone H. unfold project_with, project_process in H.
+    apply bind_ok in H. destruct H as [st [Hp Hs]].
+    destruct (process_app _ _ _ _ _ Hp) as [st1 [H1 H2]].
+    destruct (process_cons _ _ _ _ _ H2) as [st2 [H3 H4]].
+    destruct (process_plain _ _ _ _ Hpre H1) as [Hi1 [Hm1 Hs1]].
+    destruct (process_plain _ _ _ _ Hpost H4) as [Hi2 [Hm2 Hs2]].
+    cbn [pstate0 ps_include ps_merge ps_skip app] in *.
+    apply elem_entry_step in H3. unfold project_elem_match in H3. rewrite Ha in H3.
+    rewrite (first_match_none a q Hnone) in H3. cbn [bind] in H3. inversion H3 as [Hst2].
+    rewrite <- Hst2 in Hi2, Hm2, Hs2.
+    cbn [add_skip add_include ps_include ps_merge ps_skip] in Hi2, Hm2, Hs2.
+    rewrite Hs1 in Hs2. cbn [str_mem app] in Hs2. rewrite Hm1 in Hm2. rewrite Hi1 in Hi2.
+    destruct (project_state_unfold _ _ _ Hs) as [r1 [r2 [Hb [Hmg Hr]]]].
+    rewrite Hm2 in Hmg. cbn [apply_merges] in Hmg. inversion Hmg. subst r2.
+    destruct Hb as [[_ [_ [old [r0 [H0 Hc]]]]]|[Hc _]];
+      [|rewrite Hi2 in Hc; destruct (included_keys pre); discriminate].
+    destruct (put_id _ _ _ H0) as [Hr0 [Hl Hmi]]. subst r0.
+    rewrite (Get_kpath r p Hk). subst r.
+    rewrite hide_id_get; [|apply split_path_nonempty|intros _; exact Hroot].
+    rewrite Hs2, Hi2 in Hc.
+    assert (Hkp : all_kpaths ((included_keys pre ++ [p]) ++ included_keys post)).
+    { intros k Hin. apply in_app_or in Hin. destruct Hin as [Hin|Hin]; [apply in_app_or in Hin; destruct Hin as [Hin|[E|[]]]|].
+      - destruct (included_keys_in _ _ Hin) as [v Hv]. apply Hkall.
+        apply in_map_iff. exists (k, v). split; [reflexivity|apply in_or_app; left; exact Hv].
+      - subst k. exact Hk.
+      - destruct (included_keys_in _ _ Hin) as [v Hv]. apply Hkall.
+        apply in_map_iff. exists (k, v). split; [reflexivity|apply in_or_app; right; exact Hv]. }
+    rewrite (copy_included_unrelated d [p] _ _ r1 (split_path p) Hkp Hc).
+    - destruct (root_split p) as [rest Hrs]. rewrite Hrs. cbn [dget lookup].
+      destruct (String.eqb "_id" (root p)) eqn:E; [apply String.eqb_eq in E; congruence|reflexivity].
+    - intros p' Hin Hsk.
+      assert (Hin' : In p' (included_keys pre) \/ In p' (included_keys post)).
+      { apply in_app_or in Hin. destruct Hin as [Hin|Hin]; [|tauto].
+        apply in_app_or in Hin. destruct Hin as [Hin|[E|[]]]; [tauto|].
+        subst p'. cbn [str_mem] in Hsk. rewrite String.eqb_refl in Hsk. discriminate. }
+      destruct Hin' as [Hin'|Hin']; destruct (included_keys_in _ _ Hin') as [v Hv];
+        apply (Hu (p', v)); apply in_or_app; tauto.
+  Qed.
+
+  (* -------------------------------------------------------------- *)
+  (* C14: the source document *)
+
+  Definition Inv (PR : doc) (st : pstate) : Prop :=
+    (forall p, In p (ps_include st) -> In p (included_keys PR) \/ In p (ps_skip st)) /\
+    (forall q v, In (q, v) (ps_merge st) -> In q (operator_keys PR)) /\
+    (ps_include st <> [] -> included_keys PR <> [] \/ has_elem_match PR = true).
+
+  Lemma inv_step PR st d k v st' :
+    In (k, v) PR -> Inv PR st -> process_expression pctx st d "" (k, v) true = Ok st' -> Inv PR st'.
+  Proof.
+    intros Hin [I1 [I2 I3]] H.
+    destruct (process_expression_ok _ _ _ _ _ H) as [[Ho Hs]|[Ho [_ [exps [Hv Hg]]]]].
+    - inversion Hs as [Hc|Hc Hk|Hc Hk]; subst st'; cbn [add_include set_hide_id add_exclude ps_include ps_merge ps_skip];
+        try (split; [exact I1|split; [exact I2|exact I3]]).
+      assert (Hk : In k (included_keys PR)).
+      { unfold included_keys. change k with (fst (k, v)). apply in_map. apply filter_In.
+        split; [exact Hin|]. rewrite Ho. cbn [negb andb snd]. exact (proj1 (condition_incl _ Hc)). }
+      split; [|split; [exact I2|]].
+      + intros p Hp. apply in_app_or in Hp. destruct Hp as [Hp|[E|[]]]; [exact (I1 p Hp)|]. subst p. left. exact Hk.
+      + intros _. left. intro E. rewrite E in Hk. destruct Hk.
+    - destruct Hg as [ge gh [n [gi gi']] gs gm]. split; [|split].
+      + intros p Hp. rewrite gi in Hp. apply in_app_or in Hp. destruct Hp as [Hp|Hp].
+        * destruct (I1 p Hp) as [Hq|Hq]; [left; exact Hq|right; exact (gs p Hq)].
+        * destruct n as [|n]; [destruct Hp|].
+          apply repeat_spec in Hp. subst p. right. exact (proj1 (gi' (Nat.neq_succ_0 n))).
+      + intros q w Hq. destruct (gm q w Hq) as [[w0 Hq0]|Hq0]; [exact (I2 q w0 Hq0)|].
+        subst q. unfold operator_keys. change k with (fst (k, v)). apply in_map. apply filter_In. tauto.
+      + intro Hne. destruct n as [|n].
+        * cbn [repeat] in gi. rewrite app_nil_r in gi. rewrite gi in Hne. exact (I3 Hne).
+        * right. destruct (gi' (Nat.neq_succ_0 n)) as [_ Hem].
+          unfold has_elem_match. apply existsb_exists. exists (k, v). split; [exact Hin|].
+          cbn [snd]. subst v. rewrite Ho, Hem. reflexivity.
+  Qed.
+
+  Lemma inv_process PR st d l st' :
+    (forall e, In e l -> In e PR) -> Inv PR st -> process pctx st d l "" true = Ok st' -> Inv PR st'.
+  Proof.
+    revert st. induction l as [|[k v] t IH]; intros st Hl Hi H.
+    - cbn [process] in H. inversion H. subst. exact Hi.
+    - destruct (process_cons _ _ _ _ _ H) as [st1 [H1 H2]].
+      apply (IH st1); [intros e He; apply Hl; right; exact He| |exact H2].
+      exact (inv_step PR st d k v st1 (Hl _ (or_introl eq_refl)) Hi H1).
+  Qed.
+
+  Lemma inv_pstate0 PR : Inv PR pstate0.
+  Proof. split; [|split]; cbn [pstate0 ps_include ps_merge]; try tauto. intros q v []. Qed.
+
+  Lemma source_after_id roots m src :
+    (forall q v, In (q, v) m -> writes_through roots q = false) -> source_after roots m src = src.
+  Proof.
+    induction m as [|[q v] t IH]; intro H; [reflexivity|].
+    cbn [source_after]. rewrite (H q v (or_introl eq_refl)).
+    apply IH. intros q' v' Hin. apply (H q' v'). right. exact Hin.
+  Qed.
+
+  Lemma include_roots_in d skip paths roots0 r :
+    In r (include_roots d skip paths roots0) ->
+    In r roots0 \/ exists p, In p paths /\ str_mem p skip = false /\ r = split_path p.
+  Proof.
+    revert roots0. induction paths as [|p0 t IH]; intros roots0 H; cbn [include_roots] in H; [tauto|].
+    destruct (str_mem p0 skip) eqn:Es.
+    - destruct (IH _ H) as [H1|[p [H1 H2]]]; [tauto|]. right. exists p. split; [right; exact H1|exact H2].
+    - destruct (is_missing (Get d p0)).
+      + destruct (IH _ H) as [H1|[p [H1 H2]]]; [tauto|]. right. exists p. split; [right; exact H1|exact H2].
+      + destruct (IH _ H) as [H1|[p [H1 H2]]].
+        * unfold add_root in H1. destruct (existsb (fun r0 => proper_prefix r0 (split_path p0)) roots0); [tauto|].
+          destruct H1 as [H1|H1].
+          -- right. exists p0. split; [left; reflexivity|]. split; [exact Es|congruence].
+          -- apply filter_In in H1. tauto.
+        * right. exists p. split; [right; exact H1|exact H2].
+  Qed.
+
+  Lemma existsb_false_in {A} (f : A -> bool) l x : existsb f l = false -> In x l -> f x = false.
+  Proof.
+    intros H Hin. destruct (f x) eqn:E; [|reflexivity].
+    assert (existsb f l = true) by (apply existsb_exists; eauto). congruence.
+  Qed.
+
+  Notation ProjSrc := (project_src_with matchf).
+
+  Lemma project_src_result d pr r s : ProjSrc d pr = Ok (r, s) -> Proj d pr = Ok r.
+  Proof.
+    unfold project_src_with, project_with. intro H. apply bind_ok in H. destruct H as [st [Hp H]].
+    apply bind_ok in H. destruct H as [r' [Hs H]]. inversion H. subst. rewrite Hp. exact Hs.
+  Qed.
+
+  (* without colliding paths the call leaves its source document alone *)
+  Theorem project_pure_partial d pr r s :
+    no_colliding_paths pr -> ProjSrc d pr = Ok (r, s) -> s = d.
+  Proof.
+    unfold no_colliding_paths, project_src_with. intros Hnc H.
+    apply bind_ok in H. destruct H as [st [Hp H]].
+    apply bind_ok in H. destruct H as [r' [Hs H]]. inversion H. subst r' s. clear H.
+    apply source_after_id. intros q v Hq.
+    destruct (inv_process pr pstate0 d pr st (fun e He => He) (inv_pstate0 pr) Hp) as [I1 [I2 I3]].
+    unfold writes_through. destruct (existsb _ (alias_roots st d)) eqn:E; [|reflexivity]. exfalso.
+    apply existsb_exists in E. destruct E as [rt [Hrt Hpp]].
+    unfold alias_roots in Hrt. destruct (ps_include st) as [|i0 il] eqn:Ei; [destruct Hrt|].
+    assert (Hne : i0 :: il <> []) by discriminate.
+    unfold colliding_paths in Hnc.
+    assert (Hhas : (match included_keys pr with [] => has_elem_match pr | _ => true end) = true).
+    { destruct (I3 Hne) as [H1|H1]; [destruct (included_keys pr); [congruence|reflexivity]|].
+      destruct (included_keys pr); [exact H1|reflexivity]. }
+    rewrite Hhas in Hnc.
+    assert (Hq' : In (split_path q) (map split_path (operator_keys pr))) by (apply in_map; exact (I2 q v Hq)).
+    assert (Hshared : In rt (map split_path ("_id" :: included_keys pr))).
+    { destruct (include_roots_in _ _ _ _ _ Hrt) as [[E|[]]|[p [Hp1 [Hp2 Hp3]]]].
+      - subst rt. left. reflexivity.
+      - subst rt. right. apply in_map. destruct (I1 p Hp1) as [H1|H1]; [exact H1|].
+        apply str_mem_in in H1. congruence. }
+    pose proof (existsb_false_in _ _ rt Hnc Hshared) as H1. cbn beta in H1.
+    pose proof (existsb_false_in _ _ (split_path q) H1 Hq') as H2. cbn beta in H2. congruence.
+  Qed.
+
+  (* ... and a later projection of it gives the same result *)
+  Corollary project_later_results d pr r s :
+    no_colliding_paths pr -> ProjSrc d pr = Ok (r, s) -> Proj s pr = Ok r.
+  Proof.
+    intros Hnc H. rewrite (project_pure_partial _ _ _ _ Hnc H). exact (project_src_result _ _ _ _ H).
+  Qed.
 End WithMatch.
